@@ -24,6 +24,28 @@ PROPS = {
              "thorough": {"checks": 2500, "shards": 16, "timeout": 1800}},
         ],
     },
+    "C07": {
+        "level": "exploration",
+        "jobs": [
+            {"test": "TestC07", "variant": "std",
+             "quick": {"checks": 60, "shards": 8, "timeout": 400},
+             "thorough": {"checks": 1200, "shards": 10, "timeout": 2400}},
+            {"test": "TestC07Sub", "variant": "std",
+             "quick": {"checks": 30, "shards": 6, "timeout": 400},
+             "thorough": {"checks": 500, "shards": 6, "timeout": 2400}},
+        ],
+    },
+    "C08": {
+        "level": "exploration",
+        "jobs": [
+            {"test": "TestC08", "variant": "std",
+             "quick": {"checks": 40, "shards": 8, "timeout": 400},
+             "thorough": {"checks": 1000, "shards": 10, "timeout": 2400}},
+            {"test": "TestC08Sub", "variant": "std",
+             "quick": {"checks": 25, "shards": 6, "timeout": 400},
+             "thorough": {"checks": 500, "shards": 6, "timeout": 2400}},
+        ],
+    },
     "C10": {
         "level": "exploration",
         "jobs": [
